@@ -12,11 +12,8 @@
 (* The input graph is [types, edges] over event types (the dummy start     *)
 (* event of the ingestion included).                                       *)
 (*                                                                         *)
-(* Abstract machine (B3): starting from any small rooted digraph, Extract  *)
-(* collapses one cyclic strongly connected component into a loop node and  *)
-(* moves it into a body with dummy start / end; which nodes are start, end *)
-(* and break events is left open within the contract.  TLC checks that     *)
-(* whatever the choices, the final nesting satisfies the four invariants.  *)
+(* The abstract extraction machine (B3) is the separate module             *)
+(* LoopExtract.tla; this module judges observed nestings.                  *)
 (* Observation mode (B2): one state per nesting observed from the real     *)
 (* detect_loops; the same invariants are evaluated on it.                  *)
 (***************************************************************************)
